@@ -40,10 +40,14 @@ CHECKS = {
           "environment lookup flattens the path to a non-negative number, answers the all-zero path before the halving descent "
           "(found F18, fixed) and takes first on an even / rest on an odd step; opcode 1 returns its tail unevaluated; apply_op "
           "quotes the evaluated arguments by position ((nil . args), references 5, 2s+1, head unchanged) and returns the "
-          "Reduction's value. Holds for every program at once; tests run fixed programs.",
+          "Reduction's value, which comes back through a conversion that presents an atom as an integer only if re-encoding "
+          "it gives the same bytes; an operator atom is identified by its exact bytes (found F19, F26, fixed). Holds for every "
+          "program at once; tests run fixed programs.",
   "note": "NOT decided (value-level): agreement of results and failures in general — truthiness, big-integer conversions, "
           "evaluation order, results of delegated operators, cost and step limits. Breaking a decided clause breaks the property; "
-          "satisfying them does not establish it. Opcode constants of the step machine are decided under C20 (R20.STEP).",
+          "satisfying them does not establish it. Opcode constants of the step machine are decided under C20 (R20.STEP). One "
+          "known finding (F25: a pair in head position is evaluated as a program instead of ((X) args) = apply X to the "
+          "unevaluated args).",
   "technique": "MIR constant/edge recovery + sibling comparison against clvmr's MIR facts + must-pass-through",
   "design": "3.11",
  },
